@@ -64,7 +64,7 @@ Lemma err_ne : MSPACK_ERR_READ <> MSPACK_ERR_OK /\ MSPACK_ERR_WRITE <> MSPACK_ER
 Proof. vm_compute. repeat split; discriminate. Qed.
 
 Section LzssLoop.
-Variables (inh outh : handle) (bufsize : Z) (window : ptr) (L R W : gset N).
+Variables (junk : byte) (inh outh : handle) (bufsize : Z) (window : ptr) (L R W : gset N).
 Hypothesis Hin : inh ∈ R. Hypothesis Hout : outh ∈ W. Hypothesis Hwin : window ∈ L. Hypothesis Hbuf : (0 <= bufsize)%Z.
 Definition Qo : N -> mon -> Prop := fun e m => st (L ∖ {[window]}) R W m /\ OKs e m.
 
@@ -94,16 +94,16 @@ Proof.
   - eapply t_pre_weaken; [|apply Hk]. intros m [H1 H2]. split; [exact H1|apply H2; exact E].
   - eapply t_pre_weaken; [|apply s_stop_err; apply err_ne]. intros m [H _]. exact H.
 Qed.
-Lemma s_copy n : forall s mpos k, (forall s', triple (sto L R W) (k s') Qo) -> triple (sto L R W) (copy outh window n s mpos k) Qo.
+Lemma s_copy n : forall s mpos k, (forall s', triple (sto L R W) (k s') Qo) -> triple (sto L R W) (copy junk outh window n s mpos k) Qo.
 Proof. induction n as [|n IH]; intros s mpos k Hk; cbn [copy]; [apply Hk|]. apply s_putbyte. intros s'. apply IH. exact Hk. Qed.
-Lemma s_items n : forall c bit s k, (forall s', triple (sto L R W) (k s') Qo) -> triple (sto L R W) (items inh outh bufsize window n c bit s k) Qo.
+Lemma s_items n : forall c bit s k, (forall s', triple (sto L R W) (k s') Qo) -> triple (sto L R W) (items junk inh outh bufsize window n c bit s k) Qo.
 Proof.
   induction n as [|n IH]; intros c bit s k Hk; cbn [items]; [apply Hk|].
   destruct (N.testbit c bit).
   - apply s_getbyte. intros s1 b. apply s_putbyte. intros s2. apply IH. exact Hk.
   - apply s_getbyte. intros s1 m1. apply s_getbyte. intros s2 m2. apply s_copy. intros s3. apply IH. exact Hk.
 Qed.
-Lemma s_loop fuel : forall inv s, triple (sto L R W) (loop inh outh bufsize window fuel inv s) Qo.
+Lemma s_loop fuel : forall inv s, triple (sto L R W) (loop junk inh outh bufsize window fuel inv s) Qo.
 Proof.
   induction fuel as [|f IH]; intros inv s; cbn [loop].
   - eapply t_pre_weaken; [|apply s_stop_err; apply err_ne]. intros m [H _]. exact H.
@@ -111,15 +111,15 @@ Proof.
 Qed.
 End LzssLoop.
 
-Lemma s_lzss_decompress fuel inh outh bufsize mode L R W :
+Lemma s_lzss_decompress junk fuel inh outh bufsize mode L R W :
   inh ∈ R -> outh ∈ W -> (0 <= bufsize)%Z ->
-  triple (sto L R W) (lzss_decompress fuel inh outh bufsize mode) (fun e m => st L R W m /\ OKs e m).
+  triple (sto L R W) (lzss_decompress junk fuel inh outh bufsize mode) (fun e m => st L R W m /\ OKs e m).
 Proof.
   intros Hin Hout Hb. unfold lzss_decompress.
   eapply t_bind; [apply (o_alloc L R W); unfold LZSS_WINDOW_SIZE; lia|]. intros w. cbn beta.
   destruct w as [w|].
   - apply t_pre_prop. intro Hfresh.
-    eapply t_conseq; [apply (s_loop inh outh bufsize w ({[w]} ∪ L) R W Hin Hout ltac:(set_solver) Hb)|auto|].
+    eapply t_conseq; [apply (s_loop junk inh outh bufsize w ({[w]} ∪ L) R W Hin Hout ltac:(set_solver) Hb)|auto|].
     intros a m [(HL & HR & HW) Ho]. split; [|exact Ho]. unfold st. repeat split; auto. rewrite HL. set_solver.
   - apply t_ret. intros m H. split; [exact H|]. intro E. exfalso. revert E. apply err_ne.
 Qed.
@@ -184,8 +184,8 @@ Proof.
       apply t_ret. intros m H. cbn [fst snd sptr serr]. split; [|reflexivity]. split; [exact H|apply err_ne].
 Qed.
 
-Lemma s_szdd_extract fuel s h k L R W : hfh h ∈ R ->
-  triple (sto L R W) (szdd_extract fuel s h (FOut k))
+Lemma s_szdd_extract junk fuel s h k L R W : hfh h ∈ R ->
+  triple (sto L R W) (szdd_extract junk fuel s h (FOut k))
     (fun r m => st L R W m /\ OKs (fst r) m /\ serr (snd r) = fst r /\ sptr (snd r) = sptr s).
 Proof.
   intro Hfh. unfold szdd_extract.
@@ -196,7 +196,7 @@ Proof.
   destruct o as [oh|].
   2:{ apply t_ret. intros m H. cbn [fst snd serr sptr]. repeat split; try apply H; auto. intro E. exfalso. revert E. apply err_ne. }
   apply t_pre_prop. intro Hoh.
-  eapply t_bind; [apply (s_lzss_decompress fuel (hfh h) oh SZDD_INPUT_SIZE _ L R ({[oh]} ∪ W)); [exact Hfh|set_solver|unfold SZDD_INPUT_SIZE; lia]|].
+  eapply t_bind; [apply (s_lzss_decompress junk fuel (hfh h) oh SZDD_INPUT_SIZE _ L R ({[oh]} ∪ W)); [exact Hfh|set_solver|unfold SZDD_INPUT_SIZE; lia]|].
   intros e. cbn beta.
   (* close keeps okh when it held: do the case analysis on e = OK by carrying the implication *)
   intros o m Hw [Hst Hok]. rewrite run_bind.
@@ -216,8 +216,8 @@ Lemma run_close_free_okh o m h p : okh m ->
   okh (snd (run o m (do! _ <- call1 (CClose h); call1 (CFree (Some p))))).
 Proof. intro H. unfold okh in *. cbn. rewrite H. reflexivity. Qed.
 
-Lemma s_szdd_decompress fuel s ki ko L R W :
-  triple (sto L R W) (szdd_decompress fuel s (FIn ki) (FOut ko))
+Lemma s_szdd_decompress junk fuel s ki ko L R W :
+  triple (sto L R W) (szdd_decompress junk fuel s (FIn ki) (FOut ko))
     (fun r m => st L R W m /\ OKs (fst r) m /\ serr (snd r) = fst r /\ sptr (snd r) = sptr s).
 Proof.
   unfold szdd_decompress.
@@ -226,7 +226,7 @@ Proof.
   - apply (t_pre_extract _ (hptr hd ∉ L ∪ R ∪ W /\ hfh hd ∉ L ∪ R ∪ W /\ hptr hd <> hfh hd /\ sptr s1 = sptr s)); [intros m H; tauto|].
     intros (Hp & Hf & Hne & Hs1).
     apply (t_pre_weaken _ (sto ({[hptr hd]} ∪ L) ({[hfh hd]} ∪ R) W)); [intros m H; tauto|].
-    eapply t_bind; [apply (s_szdd_extract fuel s1 hd ko); set_solver|]. intros [e s2]. cbn [fst snd].
+    eapply t_bind; [apply (s_szdd_extract junk fuel s1 hd ko); set_solver|]. intros [e s2]. cbn [fst snd].
     intros o m Hw (Hst & Hok & Hse & Hs2). rewrite run_bind.
     pose proof (t_szdd_close s2 hd L R W Hp Hf Hne o m Hw Hst) as T.
     destruct (run o m (szdd_close s2 hd)) as [s3 m1] eqn:Erun. destruct T as [Hw1 [Hst1 Hs3]].
@@ -238,8 +238,8 @@ Proof.
 Qed.
 
 (* the statement for script A *)
-Lemma s_script_decompress fuel :
-  triple (sto ∅ ∅ ∅) (script_decompress fuel) (fun r m => snd r = fst r /\ OKs (fst r) m).
+Lemma s_script_decompress junk fuel :
+  triple (sto ∅ ∅ ∅) (script_decompress junk fuel) (fun r m => snd r = fst r /\ OKs (fst r) m).
 Proof.
   unfold script_decompress, szdd_new, szdd_destroy.
   eapply t_bind.
@@ -249,7 +249,7 @@ Proof.
   - intros so. cbn beta. destruct so as [s|].
     2:{ apply t_ret. intros m H. cbn [fst snd]. split; [reflexivity|]. intro E. exfalso. revert E. vm_compute. discriminate. }
     apply t_pre_prop_r. intros _.
-    eapply t_bind; [apply (s_szdd_decompress fuel s 0 0)|]. intros [e s']. cbn [fst snd].
+    eapply t_bind; [apply (s_szdd_decompress junk fuel s 0 0)|]. intros [e s']. cbn [fst snd].
     intros o m Hw (Hst & Hok & Hse & Hsp). rewrite run_bind.
     pose proof (t_free_some ({[sptr s]} ∪ ∅) ∅ ∅ (sptr s) ltac:(set_solver) o m Hw Hst) as T.
     rewrite Hsp. unfold call1 in T |- *. cbn [run bind] in T |- *. destruct T as [Hw1 _].
@@ -257,12 +257,12 @@ Proof.
     intro E. specialize (Hok E). unfold okh in *. cbn. rewrite Hok. reflexivity.
 Qed.
 
-Theorem szdd_decompress_reports_failures : forall (o : oracle) fuel,
-  let '((e, le), m) := run o mon0 (script_decompress fuel) in
+Theorem szdd_decompress_reports_failures : forall (o : oracle) junk fuel,
+  let '((e, le), m) := run o mon0 (script_decompress junk fuel) in
   le = e /\ (e = MSPACK_ERR_OK -> hfail m = false).
 Proof.
-  intros o fuel. pose proof (s_script_decompress fuel o mon0 wf_mon0 (conj st_mon0 eq_refl)) as T.
-  destruct (run o mon0 (script_decompress fuel)) as [[e le] m]. cbn [fst snd] in T. destruct T as [_ [H1 H2]]. split; [exact H1|exact H2].
+  intros o junk fuel. pose proof (s_script_decompress junk fuel o mon0 wf_mon0 (conj st_mon0 eq_refl)) as T.
+  destruct (run o mon0 (script_decompress junk fuel)) as [[e le] m]. cbn [fst snd] in T. destruct T as [_ [H1 H2]]. split; [exact H1|exact H2].
 Qed.
 
 (* signature clause: a file at least as long as the signature whose first 8 bytes are neither signature is refused with
